@@ -14,7 +14,7 @@ func init() {
 	syms := [][]byte{B("/"), B("."), B("a"), B("%2e"), B("%2f"), B("%25"), B("%"), B("b"), B("%2E")}
 	Register(&Prop{
 		ID: "C26",
-		Rule: "enum: every string over the 9 symbols {/ . a b %2e %2E %2f %25 %} up to 5 symbols (quick) / 7 (thorough), through URI.SetPathBytes and, when it is a valid request URI, URI.Parse + Path() and Request.SetRequestURI + URI().Path(); " +
+		Rule: "enum: every string over the 9 symbols {/ . a b %2e %2E %2f %25 %} up to 5 symbols (quick) / 7 (thorough), through URI.SetPathBytes and, when it is a valid request URI, URI.Parse + Path() and Request.SetRequestURI + URI().Path(), also with a query / fragment / both / empty ones appended (every branch of URI.parse); " +
 			"rand: random paths with arbitrary bytes; non-trivial = contains a '.' segment candidate (a '.' or %2e adjacent to a slash or string end); distinct = distinct path",
 		Exhaustive: func(string) bool { return true },
 		Build: func(kind string, a [][]byte) *Case {
@@ -37,6 +37,20 @@ func init() {
 					req.Header.SetHost("example.com")
 					if pp := req.URI().Path(); !bytes.Equal(pp, got) {
 						parseNote = fmt.Sprintf("Request.URI().Path() %q differs from SetPathBytes path %q", pp, got)
+					}
+					// every branch of URI.parse: the same path followed by a query, a fragment, both, or empty ones
+					for _, tail := range []string{"#f", "?q=1", "?q=1#f", "#", "?", "#a?b", "?#"} {
+						t := append(append([]byte(nil), p...), tail...)
+						var u3 fasthttp.URI
+						if err := u3.Parse([]byte("example.com"), t); err == nil && !bytes.Equal(u3.Path(), got) && parseNote == "" {
+							parseNote = fmt.Sprintf("URI.Parse(%q).Path() = %q differs from the path %q of the same target without %q", t, u3.Path(), got, tail)
+						}
+						var rq fasthttp.Request
+						rq.SetRequestURIBytes(t)
+						rq.Header.SetHost("example.com")
+						if pp := rq.URI().Path(); !bytes.Equal(pp, got) && parseNote == "" {
+							parseNote = fmt.Sprintf("Request.URI().Path() for target %q = %q differs from the path %q of the same target without %q", t, pp, got, tail)
+						}
 					}
 				}
 			}
